@@ -12,11 +12,15 @@
    Cache-Control header) are a field of the configuration, `cc`, an arbitrary
    function in every theorem and a recorded table in the per-run case files.
 
-   Not modelled: the Link-header branch of loadDocumentFromHTTP (context link,
-   rel=alternate redirect).  The scripted origin of the harness never sends a
-   Link header, so `len(linkHeader) > 0` is always false.  Content negotiation,
-   the Accept header and res.Request.URL are not observed.  HTTP redirects
-   (3xx handled inside net/http.Client) are not generated. *)
+   The rel=alternate branch of the Link header IS modelled (`alt` field of a response:
+   the response carries `Link: <target>; rel="alternate"; type="application/ld+json"`
+   and a content type that is not JSON): loadDocumentFromHTTP then calls
+   d.LoadDocument(target) recursively, with no bound in the Go code — here recursion
+   on explicit fuel, `Diverge` when it runs out.  The main correspondence stream and the
+   property theorems are about histories without such a header (`alt = None`).
+   Not modelled: the context-link part of the Link header (doc.ContextURL), content
+   negotiation, the Accept header, res.Request.URL, relative alternate targets
+   (ld.Resolve), HTTP redirects (3xx handled inside net/http.Client). *)
 From Coq Require Import ZArith NArith List String Ascii Bool.
 From GSP Require Import Base.Prelude.
 Import ListNotations.
@@ -67,7 +71,9 @@ Definition expiry_of (l : option Z) (now : Z) : etime :=
 Inductive body := BJson (d : doc) | BGarbage.       (* a JSON document (version d) / not JSON *)
 
 Inductive response :=
-| RResp (code : Z) (b : body) (p : policy)          (* an HTTP response: status, body, cache headers *)
+| RResp (code : Z) (b : body) (p : policy) (alt : option url)
+    (* an HTTP response: status, body, cache headers; alt = Some t: it also carries
+       `Link: <t>; rel="alternate"; type="application/ld+json"` and a non-JSON content type *)
 | RTransport.                                       (* httpClient.Do / ipfsCli.Cat returns an error *)
 
 (* which client a request went through *)
@@ -126,7 +132,7 @@ Definition log_req (st : state) (r : req) : state :=
   {| cache := cache st; now := now st; origin := origin st; reqlog := r :: reqlog st |}.
 
 (* nothing is served anywhere: every URL answers 404 with a non-JSON body *)
-Definition not_found : response := RResp 404 BGarbage PNone.
+Definition not_found : response := RResp 404 BGarbage PNone None.
 Definition init : state :=
   {| cache := []; now := 0; origin := fun _ => not_found; reqlog := [] |}.
 
@@ -159,7 +165,23 @@ Definition engine_set (cfg : config) (st : state) (k : url) (d : doc) (e : etime
   end.
 
 (* ---- loadDocumentFromHTTP, from http.NewRequest on ---- *)
-Definition fetch (cfg : config) (st : state) (u : url) : state * res doc :=
+(* the tail of loadDocumentFromHTTP once a document d is at hand:
+   `if shouldCache && d.cacheEngine != nil { Set(u, doc, expireTime) }; return doc` *)
+Definition store_and_return (cfg : config) (st : state) (u : url) (p : policy) (t0 : Z) (d : doc)
+  : state * res doc :=
+  (* cachecontrol.CachableResponse, requiresRevalidation: shouldCache, expireTime *)
+  let should_cache := storable cfg p in
+  let expire := expiry_of (cc_lifetime cfg p) t0 in
+  if should_cache && cache_on cfg then
+    match engine_set cfg st u d expire with
+    | None => (st, Err "cache-set")
+    | Some st2 => (st2, Ok d)
+    end
+  else (st, Ok d).
+
+(* `rec` is d.LoadDocument, called for a rel=alternate link *)
+Definition fetch (rec : state -> url -> state * res doc)
+                 (cfg : config) (st : state) (u : url) : state * res doc :=
   (* http.NewRequest *)
   if negb (url_ok cfg u) then (st, Err "new-request") else
   (* httpClient.Do *)
@@ -167,34 +189,38 @@ Definition fetch (cfg : config) (st : state) (u : url) : state * res doc :=
   let st1 := log_req st (CHttp, u, now st, r) in
   match r with
   | RTransport => (st1, Err "transport")
-  | RResp code b p =>
+  | RResp code b p alt =>
       (* res.StatusCode != http.StatusOK *)
       if negb (code =? 200) then (st1, Err "status") else
-      (* cachecontrol.CachableResponse, requiresRevalidation: shouldCache, expireTime *)
-      let should_cache := storable cfg p in
-      let expire := expiry_of (cc_lifetime cfg p) (now st) in
-      (* ld.DocumentFromReader(res.Body) *)
-      match b with
-      | BGarbage => (st1, Err "parse")
-      | BJson d =>
-          if should_cache && cache_on cfg then
-            match engine_set cfg st1 u d expire with
-            | None => (st1, Err "cache-set")
-            | Some st2 => (st2, Ok d)
-            end
-          else (st1, Ok d)
+      match alt with
+      | Some target =>
+          (* doc, err = d.LoadDocument(finalURL); the body of this response is not parsed *)
+          let '(st2, r2) := rec st1 target in
+          match r2 with
+          | Ok d => store_and_return cfg st2 u p (now st) d
+          | Err _ => (st2, Err "alternate")
+          | Panic w => (st2, Panic w)
+          | Diverge => (st2, Diverge)
+          end
+      | None =>
+          (* ld.DocumentFromReader(res.Body) *)
+          match b with
+          | BGarbage => (st1, Err "parse")
+          | BJson d => store_and_return cfg st1 u p (now st) d
+          end
       end
   end.
 
 (* loadDocumentFromHTTP: cache lookup and expiry comparison first *)
-Definition load_http (cfg : config) (st : state) (u : url) : state * res doc :=
+Definition load_http (rec : state -> url -> state * res doc)
+                     (cfg : config) (st : state) (u : url) : state * res doc :=
   if cache_on cfg then
     match engine_get cfg st u with
     | GErr => (st, Err "cache-get")
-    | GMiss => fetch cfg st u
-    | GHit d e => if after e (now st) then (st, Ok d) else fetch cfg st u
+    | GMiss => fetch rec cfg st u
+    | GHit d e => if after e (now st) then (st, Ok d) else fetch rec cfg st u
     end
-  else fetch cfg st u.
+  else fetch rec cfg st u.
 
 (* ---- loadDocumentFromIPFSNode: no cache.  The harness's IPFS client answers from the
    same scripted origin under the key "ipfs://<rest>": transport failure or a status
@@ -207,7 +233,7 @@ Definition load_node (cfg : config) (st : state) (rest : string) : state * res d
   let st1 := log_req st (CNode, k, now st, r) in
   match r with
   | RTransport => (st1, Err "cat")
-  | RResp code b _ =>
+  | RResp code b _ _ =>
       if negb (code =? 200) then (st1, Err "cat") else
       match b with
       | BGarbage => (st1, Err "parse")
@@ -255,14 +281,23 @@ Fixpoint has_prefix (p s : string) : bool :=
   end.
 
 (* ---- LoadDocument ---- *)
-Definition load (cfg : config) (st : state) (u : url) : state * res doc :=
-  if has_prefix "http://" u || has_prefix "https://" u then load_http cfg st u
+Definition load_with (rec : state -> url -> state * res doc)
+                     (cfg : config) (st : state) (u : url) : state * res doc :=
+  if has_prefix "http://" u || has_prefix "https://" u then load_http rec cfg st u
   else if has_prefix "ipfs://" u then
     let rest := drop 7 u in
     if ipfs_client cfg then load_node cfg st rest
-    else if negb (String.eqb (gateway cfg) "") then load_http cfg st (gateway_url (gateway cfg) rest)
+    else if negb (String.eqb (gateway cfg) "") then load_http rec cfg st (gateway_url (gateway cfg) rest)
     else (st, Err "ipfs-not-configured")
   else (st, Err "unsupported-scheme").
+
+(* the Go recursion LoadDocument -> loadDocumentFromHTTP -> LoadDocument has no bound:
+   `load fuel` allows `fuel` nested alternate links and answers Diverge beyond *)
+Fixpoint load (fuel : nat) (cfg : config) (st : state) (u : url) {struct fuel} : state * res doc :=
+  load_with (fun st' u' => match fuel with
+                           | O => (st', Diverge)
+                           | S f => load f cfg st' u'
+                           end) cfg st u.
 
 (* ---- histories ---- *)
 Inductive op :=
@@ -271,32 +306,34 @@ Inductive op :=
 | Load (u : url)
 | Tick (dt : N).                   (* dt seconds pass *)
 
-Definition step (cfg : config) (st : state) (o : op) : state :=
+Definition step (fuel : nat) (cfg : config) (st : state) (o : op) : state :=
   match o with
   | Serve u r => set_origin st u r
-  | Load u => fst (load cfg st u)
+  | Load u => fst (load fuel cfg st u)
   | Tick dt => set_now st (now st + Z.of_N dt)
   end.
 
-Definition run (cfg : config) (ops : list op) : state := fold_left (step cfg) ops init.
+Definition run (fuel : nat) (cfg : config) (ops : list op) : state :=
+  fold_left (step fuel cfg) ops init.
 
 (* ---- observables: per Load, the outcome and the requests it issued ---- *)
-Inductive outcome := ODoc (v : doc) | OErr | OBad.   (* OBad: Panic/Diverge, never produced *)
+Inductive outcome := ODoc (v : doc) | OErr | ODiverge | OBad.   (* OBad: Panic, never produced *)
 Definition outcome_of (r : res doc) : outcome :=
-  match r with Ok d => ODoc d | Err _ => OErr | _ => OBad end.
+  match r with Ok d => ODoc d | Err _ => OErr | Diverge => ODiverge | Panic _ => OBad end.
 
 (* requests issued by a step = the new prefix of the log *)
 Definition new_reqs (before after_ : state) : list (channel * url) :=
   map (fun r => match r with (c, k, _, _) => (c, k) end)
       (firstn (List.length (reqlog after_) - List.length (reqlog before))%nat (reqlog after_)).
 
-Fixpoint observe (cfg : config) (st : state) (ops : list op) : list (outcome * list (channel * url)) :=
+Fixpoint observe (fuel : nat) (cfg : config) (st : state) (ops : list op)
+  : list (outcome * list (channel * url)) :=
   match ops with
   | [] => []
   | Load u :: t =>
-      let '(st', out) := load cfg st u in
-      (outcome_of out, new_reqs st st') :: observe cfg st' t
-  | o :: t => observe cfg (step cfg st o) t
+      let '(st', out) := load fuel cfg st u in
+      (outcome_of out, new_reqs st st') :: observe fuel cfg st' t
+  | o :: t => observe fuel cfg (step fuel cfg st o) t
   end.
 
 (* what engine.Get answers for a key at the end of a history (cache dump through the public API) *)
